@@ -138,6 +138,7 @@ impl Property for C07 {
             "fcuts": fcuts,
             "fsteps": steps_to_json(&steps),
             "only_n": J::Null,
+            "single": rng.chance(1, 3),
         })
     }
 
@@ -171,6 +172,7 @@ impl Property for C07 {
         let defs = jstr(case, "defs");
         let stmt = jstr(case, "stmt");
         let format = jstr(case, "format");
+        let single = jbool(case, "single");
         let files = jbytes_list(case, "files");
         let joined: Option<Vec<u8>> = case.get("joined").and_then(|j| j.as_str()).map(dec);
         let read_mode = read_mode_from_json(case, "read_mode");
@@ -193,6 +195,7 @@ impl Property for C07 {
             rspec.extra_files.push((sqlgen::JOINED_PATH.to_owned(), j.clone()));
         }
         rspec.format = format.clone();
+        rspec.single_result = single;
         let reference = run(&mut out, "reference (no LIMIT, line by line)", &rspec, want_trace);
         let base_features = json!({"kind": kind});
         if !usable(&mut out, "c07", &reference, &base_features) {
@@ -209,6 +212,7 @@ impl Property for C07 {
             // unlimited batch output is the reference for aggregates
             let mut b = batch_spec(&defs, &stmt, &files, joined.as_deref());
             b.format = format.clone();
+            b.single_result = single;
             let r = run(&mut out, "reference (no LIMIT, batch)", &b, want_trace);
             if r.status != Status::Ok || !r.terminated() {
                 out.invalid = Some(format!("unlimited batch reference: {}", status_label(&r.status)));
@@ -257,6 +261,7 @@ impl Property for C07 {
             // --- batch
             let mut b = batch_spec(&defs, &lstmt, &files, joined.as_deref());
             b.format = format.clone();
+            b.single_result = single;
             b.read_mode = read_mode.clone();
             let label = format!("batch LIMIT {}", n);
             let res = run(&mut out, &label, &b, false);
@@ -323,6 +328,7 @@ impl Property for C07 {
                 f.read_mode = read_mode.clone();
                 f.end_after_idle = Some(64);
                 f.format = format.clone();
+                f.single_result = single;
                 f.event_budget = 4000 + 4 * content.len();
                 let label = format!("follow LIMIT {}", n);
                 let res = run(&mut out, &label, &f, false);
